@@ -42,12 +42,19 @@ Section AgentStep.
     {| a_name := a_name a; a_role := a_role a; a_steps := 0; a_req := false; a_status := init_status (a_role a);
        a_ended := false; a_view := v; a_reward := 0%Z; a_rewarded := false; a_obs := (v, 0%Z, false); a_traj := a_traj a |}.
 
+  (* the record with the step counter advanced (what the status rule looks at) *)
+  Definition bump (a : agent) : agent :=
+    {| a_name := a_name a; a_role := a_role a; a_steps := S (a_steps a); a_req := a_req a; a_status := a_status a;
+       a_ended := a_ended a; a_view := a_view a; a_reward := a_reward a; a_rewarded := a_rewarded a; a_obs := a_obs a; a_traj := a_traj a |}.
+
   Inductive achange (a : agent) : label -> agent -> Prop :=
   | AC_same l : achange a l a
   | AC_req id : achange a (LRun (THandler id)) (a_set_req a true)
-  | AC_step_end id st v' : a_ended a = false -> a_rewarded a = false -> a_req a = false ->
+  | AC_step_end id st act v' : a_ended a = false -> a_rewarded a = false -> a_req a = false ->
+      st = next_status goal detect cfg (bump a) v' act ->
       achange a (LRun (THandler id)) (step_rec a st true v')
   | AC_step_go id st act v' : a_ended a = false -> a_rewarded a = false -> a_req a = false ->
+      st = next_status goal detect cfg (bump a) v' act -> terminal st = false ->
       achange a (LRun (THandler id)) (finish_rec (step_rec a st false v') act v')
   | AC_finish id act : a_ended a = true -> a_req a = false -> achange a (LRun (THandler id)) (finish_rec a act (a_view a))
   | AC_traj id : achange a (LRun (THandler id)) (a_set_traj a (traj_start (a_view a)))
@@ -139,11 +146,16 @@ Section AgentStep.
         destruct (J_req _ _ Hj (h_addr h) a0 H0 E) as (h0 & Hin0 & Ha0 & Hw0).
         apply (no_waiting_other s h Hi Hin Hnw h0 Hin0 Ha0 Hw0). }
       assert (E2 : a2 = step_rec a0 (a_status a2) (a_ended a2) v') by reflexivity.
+      assert (Est : a_status a2 = next_status goal detect cfg (bump a0) v' act) by reflexivity.
+      assert (Eend : a_ended a2 = false -> terminal (a_status a2) = false).
+      { intros Hx. assert (Hy : a_ended a2 = terminal (a_status a2) || negb (status_eqb (a_status a2) SPlayingTO ||
+            existsb (fun x => negb (N.eqb (fst x) (h_addr h)) && status_eqb (a_status (snd x)) SPlayingTO) (agents s))) by reflexivity.
+        rewrite Hy in Hx. apply orb_false_elim in Hx as [Hx _]. exact Hx. }
       clearbody a2.
       destruct (a_ended a2) eqn:He2.
       + assert (Hr : stepped ags c a (LRun (THandler (h_id h)))).
         { apply stepped_upd; [exact Ha|]. intros E. rewrite E in H0. rewrite Ha in H0. injection H0 as <-.
-          rewrite E2. apply AC_step_end; assumption. }
+          rewrite E2. apply (AC_step_end a (h_id h) (a_status a2) act v'); assumption. }
         destruct (all_ended ags); exact Hr.
       + assert (Hr : forall s2 : state, agents s2 = ags ->
                   stepped (agents (@game_finish V W G s2 (h_id h) (h_addr h) act v')) c a (LRun (THandler (h_id h)))).
@@ -151,7 +163,7 @@ Section AgentStep.
           assert (Hl2 : alookup (h_addr h) ags = Some a2) by (unfold ags; rewrite alookup_aupdate_eq, H0; reflexivity).
           rewrite Hl2. simpl. rewrite ?Hs2. unfold ags. rewrite aupdate_aupdate.
           apply stepped_upd; [exact Ha|]. intros E. rewrite E in H0. rewrite Ha in H0. injection H0 as <-.
-          rewrite E2. apply (AC_step_go a (h_id h) (a_status a2) act v'); assumption. }
+          rewrite E2. apply (AC_step_go a (h_id h) (a_status a2) act v'); try assumption. apply Eend. reflexivity. }
         destruct (all_ended ags); apply Hr; reflexivity.
   Qed.
 
